@@ -28,6 +28,7 @@ type inj struct {
 }
 
 type callRec struct {
+	serial int    // identity of the connection (creation order)
 	kind  string   // d m c mc
 	items []string // canonical order (see canonical())
 	raw   []string // order as received
@@ -194,7 +195,7 @@ func (n *nodeBackend) Do(ctx context.Context, cmd rueidis.Completed) rueidis.Red
 		return rueidis.NewResult(s.topo.msg(), nil)
 	}
 	it := s.classify(cmd)
-	s.logs[n.addr] = append(s.logs[n.addr], callRec{kind: "d", items: []string{it.text}, raw: []string{it.text}})
+	s.logs[n.addr] = append(s.logs[n.addr], callRec{serial: n.serial, kind: "d", items: []string{it.text}, raw: []string{it.text}})
 	if it.id < 0 {
 		return rueidis.NewResult(rueidis.VerifSimpleString("OK"), nil)
 	}
@@ -208,7 +209,7 @@ func (n *nodeBackend) DoCache(ctx context.Context, cmd rueidis.Cacheable, ttl ti
 	s.mu.Lock()
 	defer s.mu.Unlock()
 	it := s.classify(rueidis.Completed(cmd))
-	s.logs[n.addr] = append(s.logs[n.addr], callRec{kind: "c", items: []string{it.text}, raw: []string{it.text}})
+	s.logs[n.addr] = append(s.logs[n.addr], callRec{serial: n.serial, kind: "c", items: []string{it.text}, raw: []string{it.text}})
 	s.last[it.id] = execInfo{n.addr, n.serial, 0, 0}
 	r, _ := s.answer(n.addr, it.id, false)
 	return r
@@ -306,7 +307,7 @@ func (n *nodeBackend) batch(kind string, multi []rueidis.Completed) []rueidis.Re
 		s.last[u.it.id] = execInfo{n.addr, n.serial, phase, i}
 	}
 	canon = append(canon, trailing...)
-	s.logs[n.addr] = append(s.logs[n.addr], callRec{kind: kind, items: canon, raw: raw})
+	s.logs[n.addr] = append(s.logs[n.addr], callRec{serial: n.serial, kind: kind, items: canon, raw: raw})
 	return out
 }
 
@@ -336,12 +337,36 @@ func (s *sim) drainLogs() (canon, raw string) {
 	sort.Slice(addrs, func(i, j int) bool { return hx(addrs[i]) < hx(addrs[j]) })
 	var cs, rs []string
 	for _, a := range addrs {
-		var cc, rr []string
+		// canonical log: one entry per connection (a second connection to the same address is `addr#1`);
+		// raw log (oracle lines): per address, in arrival order
+		var serials []int
 		for _, c := range s.logs[a] {
-			cc = append(cc, c.kind+":"+strings.Join(c.items, ","))
+			seen := false
+			for _, x := range serials {
+				seen = seen || x == c.serial
+			}
+			if !seen {
+				serials = append(serials, c.serial)
+			}
+		}
+		sort.Ints(serials)
+		for ord, ser := range serials {
+			var cc []string
+			for _, c := range s.logs[a] {
+				if c.serial == ser {
+					cc = append(cc, c.kind+":"+strings.Join(c.items, ","))
+				}
+			}
+			label := hx(a)
+			if ord > 0 {
+				label += "#" + strconv.Itoa(ord)
+			}
+			cs = append(cs, label+"="+strings.Join(cc, ";"))
+		}
+		var rr []string
+		for _, c := range s.logs[a] {
 			rr = append(rr, c.kind+":"+strings.Join(c.raw, ","))
 		}
-		cs = append(cs, hx(a)+"="+strings.Join(cc, ";"))
 		rs = append(rs, hx(a)+"="+strings.Join(rr, ";"))
 	}
 	s.logs = map[string][]callRec{}
